@@ -611,6 +611,17 @@ impl GrammarBuilder {
                 {
                     assign.symbol.index = Some(match symbol {
                         GrammarSymbol::Name(name) => {
+                            if name.as_ref() == "STOP" {
+                                // STOP is matched implicitly at the end of the input.
+                                err!(
+                                    format!(
+                                        "STOP can't be referenced in production '{}'.",
+                                        production_str
+                                    ),
+                                    Some(self.file.clone()),
+                                    name.span
+                                )?
+                            }
                             if let Some(terminal) = self.terminals.get(name.as_ref()) {
                                 terminal.idx.symbol_index()
                             } else {
